@@ -4,7 +4,7 @@ import ast
 from ..core.model import AnchorError, FuncInfo, ClassInfo
 from ..core.cfg import walk_shallow, cfg_of
 from ..core.facts import U, atoms_of
-from ..engine import fn_name, kwarg, local_defs, returns_of, stmts_in
+from ..engine import argn, fn_name, kwarg, local_defs, returns_of, stmts_in
 
 EXPLANATION = (
     "Decides structural clauses of C11 for the classes that accept random_seed (subclasses of TrialSchedulerWithSearcher and "
@@ -140,7 +140,7 @@ def s1(ctx, rep):
         raise AnchorError("generate_random_seed: default generator is no longer np.random; re-read rule S1")
     for f, call in ctx.all_calls_anywhere(func=gs):
         if call.args or call.keywords:
-            arg = call.args[0] if call.args else call.keywords[0].value
+            arg = argn(call, 0) if call.args else call.keywords[0].value
             ok = "random_state" in U(arg) or "_random_state" in U(arg)
             rep.put(ok, "S1", "global_rng", f"{f.short}: generate_random_seed draws from an owned generator", f, call, U(arg))
             continue
@@ -188,7 +188,7 @@ def _under_isinstance(call, clsname):
     while par is not None and not isinstance(par, (ast.FunctionDef, ast.AsyncFunctionDef)):
         if isinstance(par, ast.If) and any(node is s for s in par.body):
             for y in ast.walk(par.test):
-                if isinstance(y, ast.Call) and fn_name(y) == "isinstance" and len(y.args) == 2 and U(y.args[0]) == recv and U(y.args[1]) == clsname:
+                if isinstance(y, ast.Call) and fn_name(y) == "isinstance" and len(y.args) == 2 and U(argn(y, 0)) == recv and U(argn(y, 1)) == clsname:
                     return True
         node, par = par, getattr(par, "_parent", None)
     return False
@@ -212,9 +212,9 @@ def s2(ctx, rep):
                         continue
                 rs = kwarg(x, "random_state")
                 if rs is None and name in ("random_config", "random_configs") and x.args:
-                    rs = x.args[0]
+                    rs = argn(x, 0)
                 if rs is None and name == "sample_random_configuration" and len(x.args) >= 2:
-                    rs = x.args[1]
+                    rs = argn(x, 1)
                 n += 1
                 ok = rs is not None and "random_state" in U(rs) and not (isinstance(rs, ast.Constant) and rs.value is None)
                 rep.put(ok, "S2", "taint", f"{m.short}: {name}(...) receives the owner's generator", m, x,
@@ -237,7 +237,7 @@ def s3(ctx, rep):
             for x in walk_shallow(m.node):
                 if isinstance(x, ast.Call) and fn_name(x) == "RandomState":
                     n += 1
-                    arg = x.args[0] if x.args else kwarg(x, "seed")
+                    arg = argn(x, 0) if x.args else kwarg(x, "seed")
                     src = U(arg) if arg is not None else ""
                     if isinstance(arg, ast.Name):
                         ds = [U(d) if not isinstance(d, tuple) else U(d[1]) for d in local_defs(m, arg.id)]
@@ -249,7 +249,7 @@ def s3(ctx, rep):
     f = P.method("ModelBasedSearcher", "_assign_random_searcher")
     cfg = cfg_of(f)
     mk = [n_.id for n_ in cfg.nodes if any(isinstance(x, ast.Call) and fn_name(x) == "RandomSearcher" for x in cfg.node_walk(n_.id))]
-    sh = [n_.id for n_ in cfg.nodes if any(isinstance(x, ast.Call) and fn_name(x) == "set_random_state" and U(x.args[0]) == "self.random_state"
+    sh = [n_.id for n_ in cfg.nodes if any(isinstance(x, ast.Call) and fn_name(x) == "set_random_state" and U(argn(x, 0)) == "self.random_state"
                                             for x in cfg.node_walk(n_.id))]
     ok = bool(mk) and bool(sh) and cfg.path([s for s, l in cfg.succ[mk[0]]], cfg.exit, deleted=set(sh), skip_labels=("exc",)) is None
     rep.put(ok, "S3", "must_follow", "ModelBasedSearcher._assign_random_searcher: the internal searcher shares self.random_state", f, None, "",
@@ -318,10 +318,10 @@ def _elem_kind(ctx, f, e):
     for g in scope:
         for x in walk_shallow(g.node):
             if isinstance(x, ast.Call) and fn_name(x) == "add" and U(x.func.value).startswith(key) and x.args:
-                kinds.add(of_value(g, x.args[0]))
+                kinds.add(of_value(g, argn(x, 0)))
             if isinstance(x, ast.Assign) and U(x.targets[0]).startswith(key) and isinstance(x.value, ast.Call) and fn_name(x.value) == "set" \
                     and x.value.args:
-                inner = x.value.args[0]
+                inner = argn(x.value, 0)
                 if isinstance(inner, (ast.GeneratorExp, ast.ListComp)):
                     kinds.add(of_value(g, inner.elt))
                 else:
@@ -330,8 +330,8 @@ def _elem_kind(ctx, f, e):
                     el = ti.elem() if ti is not None else None
                     if el is not None and el.name in ("int", "str"):
                         kinds.add(el.name)
-    if isinstance(e, ast.Call) and fn_name(e) == "set" and e.args and isinstance(e.args[0], (ast.GeneratorExp, ast.ListComp)):
-        kinds.add(of_value(f, e.args[0].elt))
+    if isinstance(e, ast.Call) and fn_name(e) == "set" and e.args and isinstance(argn(e, 0), (ast.GeneratorExp, ast.ListComp)):
+        kinds.add(of_value(f, argn(e, 0).elt))
     if not kinds:
         return "?"
     if kinds == {"int"}:
@@ -379,9 +379,9 @@ def hash_order_sites(ctx, funcs):
             elif isinstance(x, ast.comprehension):
                 it, how = x.iter, "comprehension"
             elif isinstance(x, ast.Call) and isinstance(x.func, ast.Name) and x.func.id in ("list", "tuple", "enumerate", "iter", "next") and x.args:
-                it, how = x.args[0], x.func.id
+                it, how = argn(x, 0), x.func.id
             elif isinstance(x, ast.Call) and fn_name(x) in ("combinations", "permutations", "product", "chain", "islice") and x.args:
-                it, how = x.args[0], fn_name(x)
+                it, how = argn(x, 0), fn_name(x)
             if it is None:
                 continue
             if isinstance(it, ast.Call) and isinstance(it.func, ast.Name) and it.func.id in ORDER_SAFE and it.func.id not in ("set", "frozenset"):
@@ -473,7 +473,7 @@ def _consumed_as_set(ctx, f, node):
             continue
         for x in walk_shallow(m.node):
             if isinstance(x, ast.Call) and isinstance(x.func, ast.Name) and x.func.id in ("set", "frozenset") and x.args and \
-                    isinstance(x.args[0], ast.Subscript) and isinstance(x.args[0].slice, ast.Constant) and x.args[0].slice.value == key:
+                    isinstance(argn(x, 0), ast.Subscript) and isinstance(argn(x, 0).slice, ast.Constant) and argn(x, 0).slice.value == key:
                 return True
     return False
 
